@@ -7,6 +7,7 @@
 import ErgoProofs.Lemmas.ReachInv
 import ErgoProofs.Lemmas.Progress
 import ErgoProofs.Lemmas.PropsAux
+import ErgoProofs.Lemmas.StampFree
 namespace Ergo
 
 /-- if the effective waits-for relation (own dependencies + those inherited from the epic's dependencies) has no cycle, then
@@ -46,5 +47,13 @@ theorem C15_witness_accepted :
 theorem C15_partial_no_epic_edges (g : Graph) (hinv : AllInv g)
     (hnoepic : ∀ e ∈ g.deps, ∀ a ∈ g.tasks, a.id = e.1 → a.isEpic = false) : WaitsAcyclic g :=
   waitsAcyclic_of_no_epic_edges g hinv hnoepic
+
+/-- state and claimant of every item follow from the order of the lines, not from their stamps: a `claim` recorded after an earlier
+    claim-and-release stamped ahead (a collaborator's fast clock) leaves the task doing and claimed, so work that can proceed is handed out -/
+theorem C15_state_follows_line_order_not_stamps {l l' : List Event} (h : SameLines l l') {g g' : Graph}
+    (hr : replay l = .ok g) (hr' : replay l' = .ok g') (id : Id) :
+    (g.find? id).map (fun t => (t.st, t.claimedBy, t.epicId)) = (g'.find? id).map (fun t => (t.st, t.claimedBy, t.epicId)) ∧ g.deps = g'.deps := by
+  have := congrArg (Option.map fun t : Task => (t.st, t.claimedBy, t.epicId)) ((stamp_free_items h hr hr').1 id)
+  exact ⟨by simpa [Option.map_map, Function.comp_def, Task.untimed] using this, (stamp_free_items h hr hr').2.1⟩
 
 end Ergo
